@@ -36,6 +36,11 @@ func (a Any) completeIndexExprAtPos(ctx context.Context, pos hcl.Pos) []lang.Can
 		// references and functions.
 		lastTraversal := eType.Traversal[len(eType.Traversal)-1]
 		if _, ok := lastTraversal.(hcl.TraverseIndex); ok {
+			// only if the position is between the brackets
+			stepRng := lastTraversal.SourceRange()
+			if pos.Byte <= stepRng.Start.Byte || pos.Byte >= stepRng.End.Byte {
+				return candidates
+			}
 			expr := newEmptyExpressionAtPos(eType.Range().Filename, pos)
 			return newExpression(a.pathCtx, expr, cons).CompletionAtPos(ctx, pos)
 		}
